@@ -22,7 +22,7 @@ FftShiftPos(n, q) == (q + n \div 2) % n            \* numpy.fft.fftshift moves i
 IfftShiftPos(n, q) == (q + (n + 1) \div 2) % n     \* numpy.fft.ifftshift
 ModelMap(n, n2, shifted) == [a \in 1..n |-> LET q == CropPos(n, n2, a - 1) IN IF q = -1 THEN -1 ELSE IF shifted THEN FftShiftPos(n2, q) ELSE q]
 Init == /\ \/ \E n \in 2..MaxN, n2 \in 1..MaxN, sh \in BOOLEAN : n2 <= n /\ c = [k |-> "crop", n |-> n, n2 |-> n2, shifted |-> sh]
-           \/ \E nx \in {8, 9}, ny \in {8, 9, 12}, ang \in {"full", "cutoff", "valid", "a", "b"}, par \in {"same", "odd", "even"}, sh \in BOOLEAN :
+           \/ \E nx \in {8, 9}, ny \in {8, 9, 12}, ang \in {"full", "cutoff", "valid", "a", "b", "edge", "beyond"}, par \in {"same", "odd", "even"}, sh \in BOOLEAN :
                 c = [k |-> "scenario", n |-> <<nx, ny>>, angle |-> ang, parity |-> par, shifted |-> sh]
         /\ done = FALSE
 Next == ~done /\ done' = TRUE /\ UNCHANGED c
